@@ -152,7 +152,15 @@ func (c *RPCClient) SendRequestAsync(ctx context.Context, addr string, req *tikv
 	}
 	select {
 	case batchConn.batchCommandsCh <- entry:
-		// will be fulfilled in batch send/recv loop.
+		// will be fulfilled in batch send/recv loop, unless the batchConn has been closed in the meantime: the send
+		// loop is gone (or going) then and may never look at the queue again.
+		select {
+		case <-batchConn.closed:
+			logutil.Logger(ctx).Debug("async send request cancelled (conn closed after enqueue)", zap.String("to", addr))
+			atomic.StoreInt32(&entry.canceled, 1)
+			cb.Invoke(nil, errors.New("batchConn closed"))
+		default:
+		}
 	case <-ctx.Done():
 		// will be fulfilled by the after callback of ctx.
 	case <-batchConn.closed:
